@@ -26,7 +26,7 @@ func recordBatchSize(msgs ...Message) (size int32) {
 
 	for i := range msgs {
 		msg := &msgs[i]
-		msz := recordSize(msg, msg.Time.Sub(baseTime), int64(i))
+		msz := recordSize(msg, recordTimestampDelta(baseTime, msg.Time), int64(i))
 		size += int32(msz + varIntLen(int64(msz)))
 	}
 
@@ -80,7 +80,14 @@ func (r *recordBatch) writeTo(wb *writeBuffer) {
 	wb.writeInt32(r.size)
 
 	baseTime := r.msgs[0].Time
-	lastTime := r.msgs[len(r.msgs)-1].Time
+	// the header carries the largest timestamp of the batch, which is not
+	// necessarily the one of the last message
+	lastTime := baseTime
+	for i := range r.msgs {
+		if t := r.msgs[i].Time; t.After(lastTime) {
+			lastTime = t
+		}
+	}
 	if r.compressed != nil {
 		wb.writeRecordBatch(r.attributes, r.size, len(r.msgs), baseTime, lastTime, func(wb *writeBuffer) {
 			wb.Write(r.compressed.Bytes())
@@ -95,9 +102,18 @@ func (r *recordBatch) writeTo(wb *writeBuffer) {
 	}
 }
 
-func recordSize(msg *Message, timestampDelta time.Duration, offsetDelta int64) int {
+// recordTimestampDelta returns the difference in milliseconds between the
+// timestamp of a record and the timestamp of the first record of its batch,
+// both taken as they are represented on the wire (truncated to milliseconds),
+// so that adding the delta to the batch's first timestamp gives back the
+// record's timestamp.
+func recordTimestampDelta(baseTime, t time.Time) int64 {
+	return timestamp(t) - timestamp(baseTime)
+}
+
+func recordSize(msg *Message, timestampDelta int64, offsetDelta int64) int {
 	return 1 + // attributes
-		varIntLen(int64(milliseconds(timestampDelta))) +
+		varIntLen(timestampDelta) +
 		varIntLen(offsetDelta) +
 		varBytesLen(msg.Key) +
 		varBytesLen(msg.Value) +
